@@ -68,11 +68,13 @@ type vfFbStep struct {
 	ECN  uint8  `json:"ecn"`
 	Max  int    `json:"max"`
 	Fbs  []vfFb `json:"fbs"`
+	Loop bool   `json:"loop"` // run: loopback transport - feedback about each packet is read while its Write is still in progress
 }
 
 type vfFbScript struct {
 	Target  string     `json:"target"`
 	RefBase int64      `json:"refbase"`
+	Twin    bool       `json:"twin"` // a second interceptor built by the SAME factory carries look-alike traffic of its own
 	Steps   []vfFbStep `json:"steps"`
 }
 
@@ -241,6 +243,9 @@ type vfRtpfbEnv struct {
 	rtsBase     uint32
 	twccArrBase time.Time
 	ccArrBase   time.Time
+	inWrite     func()                   // called once by the transport-side writer from inside the next Write
+	twin        interceptor.Interceptor // second connection of the same factory (nil unless the script asks for it)
+	twinWriters map[[2]uint32]interceptor.RTPWriter
 }
 
 // vfTwccExtID: streams negotiate the transport-cc extension under different ids (5 for odd SSRCs, 1 for even ones)
@@ -265,10 +270,36 @@ func (e *vfRtpfbEnv) writer(ssrc uint32, useTWCC bool) interceptor.RTPWriter {
 		info.RTPHeaderExtensions = []interceptor.RTPHeaderExtension{{URI: transportCCURI, ID: int(vfTwccExtID(ssrc))}}
 	}
 	w := e.ic.BindLocalStream(info, interceptor.RTPWriterFunc(
-		func(_ *rtp.Header, payload []byte, _ interceptor.Attributes) (int, error) { return len(payload), nil }))
+		func(_ *rtp.Header, payload []byte, _ interceptor.Attributes) (int, error) {
+			if f := e.inWrite; f != nil { // the packet is on the wire: its feedback may be read before Write returns
+				e.inWrite = nil
+				f()
+			}
+
+			return len(payload), nil
+		}))
 	e.writers[k] = w
+	if e.twin != nil {
+		e.twinWriters[k] = e.twin.BindLocalStream(info, interceptor.RTPWriterFunc(
+			func(_ *rtp.Header, payload []byte, _ interceptor.Attributes) (int, error) { return len(payload), nil }))
+	}
 
 	return w
+}
+
+// loopFb: feedback that acknowledges exactly packet i of the run (TWCC for a packet carrying the extension, RFC 8888 otherwise)
+func (e *vfRtpfbEnv) loopFb(st *vfFbStep, i int, at int64) []rtcp.Packet {
+	if st.Twcc && st.Ext {
+		return []rtcp.Packet{vfBuildTwcc(&vfFb{
+			K: "twcc", Base: st.Tw + uint16(i), Count: 1, Ref: 1 + at/64000, //nolint:gosec
+			Chunks: []vfFbChunk{{T: "rl", Sym: 1, Len: 1}}, Deltas: []int64{8}, DTypes: []uint16{1},
+		}, e.sc.RefBase)}
+	}
+
+	return []rtcp.Packet{vfBuildCcfb(&vfFb{
+		K: "ccfb", Rts: at*65536/1000000 + 65536,
+		Blocks: []vfFbBlock{{SSRC: st.SSRC, Begin: st.Seq + uint16(i), Mbs: []vfFbMetric{{R: 1, ECN: 3, Ato: 4}}}}, //nolint:gosec
+	}, e.rtsBase)}
 }
 
 func (e *vfRtpfbEnv) run(st *vfFbStep) {
@@ -287,8 +318,31 @@ func (e *vfRtpfbEnv) run(st *vfFbStep) {
 			attrs.Set(cc.TwccExtensionAttributesKey, vfTwccExtID(st.SSRC))
 		}
 		hsz = hdr.MarshalSize()
+		w := e.writer(st.SSRC, st.Twcc)
+		if e.twin != nil { // the other connection sends a look-alike (same numbers, another size, another time) just before
+			k := [2]uint32{st.SSRC, 0}
+			if st.Twcc {
+				k[1] = 1
+			}
+			th := hdr.Clone()
+			e.now = vfT0.Add(time.Duration(st.Dep+int64(i)*st.Gap-777) * time.Microsecond)
+			if _, err := e.twinWriters[k].Write(&th, make([]byte, st.Size+i+1000), attrs); err != nil {
+				e.t.Fatalf("VERIF-INFRA twin write: %v", err)
+			}
+		}
 		e.now = vfT0.Add(time.Duration(st.Dep+int64(i)*st.Gap) * time.Microsecond)
-		if _, err := e.writer(st.SSRC, st.Twcc).Write(&hdr, make([]byte, st.Size+i), attrs); err != nil {
+		if st.Loop { // the packet counts as sent from the moment it is handed to the next writer
+			e.out.Emit(vfM{
+				"a": "run", "ssrc": st.SSRC, "seq": st.Seq + uint16(i), "tw": st.Tw + uint16(i), "twcc": st.Twcc, "ext": st.Ext, //nolint:gosec
+				"n": 1, "size": st.Size + i, "dep": st.Dep + int64(i)*st.Gap, "gap": 0, "hsz": hsz,
+			})
+			at, was := st.Dep+int64(i)*st.Gap+500, e.now
+			e.inWrite = func() {
+				e.feed(e.loopFb(st, i, at), at, false)
+				e.now = was
+			}
+		}
+		if _, err := w.Write(&hdr, make([]byte, st.Size+i), attrs); err != nil {
 			e.t.Fatalf("VERIF-INFRA write: %v", err)
 		}
 		if e.adapter != nil {
@@ -296,6 +350,9 @@ func (e *vfRtpfbEnv) run(st *vfFbStep) {
 				e.t.Fatalf("VERIF-INFRA OnSent: %v", err)
 			}
 		}
+	}
+	if st.Loop {
+		return
 	}
 	e.out.Emit(vfM{
 		"a": "run", "ssrc": st.SSRC, "seq": st.Seq, "tw": st.Tw, "twcc": st.Twcc, "ext": st.Ext, "n": st.N,
@@ -395,6 +452,12 @@ func TestVerifRtpfbExec(t *testing.T) {
 		if env.ic, err = f.NewInterceptor(""); err != nil {
 			t.Fatalf("VERIF-INFRA NewInterceptor: %v", err)
 		}
+		if sc.Twin {
+			if env.twin, err = f.NewInterceptor("twin"); err != nil {
+				t.Fatalf("VERIF-INFRA NewInterceptor (twin): %v", err)
+			}
+			env.twinWriters = map[[2]uint32]interceptor.RTPWriter{}
+		}
 		env.reader = env.ic.BindRTCPReader(interceptor.RTCPReaderFunc(
 			func(b []byte, a interceptor.Attributes) (int, interceptor.Attributes, error) {
 				return copy(b, env.next), a, nil
@@ -450,6 +513,11 @@ func TestVerifRtpfbExec(t *testing.T) {
 		}
 		if err := env.ic.Close(); err != nil {
 			t.Fatalf("VERIF-INFRA close: %v", err)
+		}
+		if env.twin != nil {
+			if err := env.twin.Close(); err != nil {
+				t.Fatalf("VERIF-INFRA close (twin): %v", err)
+			}
 		}
 	}
 }
